@@ -19,8 +19,11 @@ FUNCTIONS = ["ckl.lexer.Lexer.scan", "ckl.lexer.Lexer.(next|peek|match*|peekn)",
              "ckl.nodes.*.__init__", "ckl.values.Value*.__init__ (literal construction)"]
 OUTSIDE = ["texts longer than prefix+n symbolic characters", "token windows wider than the bound",
            "pattern literal bodies are concrete (re.compile is C code): pool of regex fragments",
-           "int() on numerals longer than CPython's digit limit", "nesting deeper than the seeds"]
+           "numerals longer than CPython's int <-> str digit limit other than the pool members", "nesting deeper than the seeds"]
 REACH = {"node", "syntax-error"}
+# thorough tier: `//a` + 3 symbolic characters can close a pattern literal around one free character, which meets
+# re.compile (C code): those few paths are not explored symbolically, their witness is run concretely instead
+TOLERATE_UNSUPPORTED = 40
 DIVERGE_LABEL = "C01:non-termination"
 PATH_SECONDS = 10
 ORACLE_TIMEOUT = 5
